@@ -62,6 +62,32 @@ def lift(v, like=None):
         return z3.RealVal(repr(v))
     if isinstance(v, str):
         return z3.StringVal(v)
+    if isinstance(v, FStr):
+        # an f-string as a z3 string term: literals and string components verbatim, integer components through
+        # str() (z3's int.to.str covers naturals; a sign is prefixed for negatives)
+        parts, it = [], iter(v.comps)
+        for piece in v.skeleton:
+            if piece is not None:
+                parts.append(z3.StringVal(piece))
+                continue
+            c = next(it)
+            if isinstance(c, str):
+                parts.append(z3.StringVal(c))
+            elif isinstance(c, bool) or (is_z3(c) and z3.is_bool(c)):
+                raise OutOfSubset("bool inside a lifted f-string")
+            elif isinstance(c, int):
+                parts.append(z3.StringVal(str(c)))
+            elif is_z3(c) and z3.is_string(c):
+                parts.append(c)
+            elif is_z3(c) and z3.is_int(c):
+                parts.append(z3.If(c >= 0, z3.IntToStr(c), z3.Concat(z3.StringVal("-"), z3.IntToStr(-c))))
+            elif isinstance(c, FStr):
+                parts.append(lift(c))
+            else:
+                raise OutOfSubset("f-string component that is not a scalar")
+        if not parts:
+            return z3.StringVal("")
+        return parts[0] if len(parts) == 1 else z3.Concat(*parts)
     raise OutOfSubset(f"cannot lift {type(v).__name__}")
 
 
